@@ -25,9 +25,10 @@ func init() {
 			"Added after blind round 7: processFragments concatenates the fragment payloads (running offset starting at 0 and advancing by len(fragment), or append) — fragments are not all of one size. " +
 			"Added after blind round 8: getSequenceBounds compares every entry with both running bounds (a one-entry file has a maximum). " +
 			"Added after blind round 9: FindWALFiles orders by name only (a comparator that asks the file system, or a reversal, is reported); the counter's monotone-stores obligations are listed here too (a read from n is cut off at the counter). " +
-			"Added after blind round 10: the destructive-operation table (every remove/rename/truncate on database files is a reviewed site) is listed here too.",
+			"Added after blind round 10: the destructive-operation table (every remove/rename/truncate on database files is a reviewed site) is listed here too. " +
+			"Added after blind round 11: a rotated log file is passed over by its sequence bounds only when its highest sequence is strictly below the requested start.",
 		NotDecided: "equality of replayed and appended sequences for all inputs (the layout agreement plus CRC is its structural part); behaviour with non-monotone sequence numbers.",
-		Rules:      []func(*Ctx, *Reporter){ruleWalHeaderCodec, ruleWalPayloadCodec, ruleWalFragmentation, ruleWalLengthFits, ruleWalCRC, ruleWalFileOrder, ruleWalNoBufferDrop, ruleWalRouteBySize, ruleNoFabrication, ruleReuseNewestOnly, ruleWalReaderNoConstantLimits, ruleExplicitSeqBelowCounter, ruleFragmentsConcatenated, ruleSequenceBoundsIndependent, subRules(ruleWalMonotone, "monotone-stores"), ruleDestructiveOps},
+		Rules:      []func(*Ctx, *Reporter){ruleWalHeaderCodec, ruleWalPayloadCodec, ruleWalFragmentation, ruleWalLengthFits, ruleWalCRC, ruleWalFileOrder, ruleWalNoBufferDrop, ruleWalRouteBySize, ruleNoFabrication, ruleReuseNewestOnly, ruleWalReaderNoConstantLimits, ruleExplicitSeqBelowCounter, ruleFragmentsConcatenated, ruleSequenceBoundsIndependent, subRules(ruleWalMonotone, "monotone-stores"), ruleDestructiveOps, ruleOlderLogFilesSkippedOnlyBelowStart},
 	})
 }
 
